@@ -1571,6 +1571,10 @@ func (g *gen) tok(id string, c gcfg, defect int, eps []string) gtok {
 		aud = Pick(g.r, []string{"none", Hx("wrong"), "-", Hx("PIKO"), Hx("wrong") + "," + Hx("piko2")})
 	case 9:
 		iss = Pick(g.r, []string{"", "wrong", "Issuer"})
+	case 11: // the classic confusions: an HMAC over the empty secret or over the RSA public key PEM
+		signer = Pick(g.r, []string{"empty", "empty", "pem"})
+		alg = Pick(g.r, []string{"HS256", "HS256", "HS384", "HS512"})
+		kid = Pick(g.r, []string{"-", "-", "s:" + Hx("r1"), "s:" + Hx("h1")})
 	case 10: // kid games (JWKS)
 		kid = Pick(g.r, []string{"-", "num", "s:" + Hx("zz"), "s:" + Hx("r1"), "s:" + Hx("e1"), "s:" + Hx("h1")})
 		if g.chance(50) {
@@ -1637,7 +1641,7 @@ func (g *gen) tenantHdr(ts []gcfg) string {
 	switch g.r.Intn(10) {
 	case 0:
 		return "-"
-	case 1:
+	case 1, 2:
 		return Hx(Pick(g.r, []string{"t3", "T1", "t10", "t"}))
 	}
 	return Hx(ts[g.r.Intn(len(ts))].owner)
@@ -1654,7 +1658,7 @@ func (g *gen) caseMW(name string) {
 		c := all[g.r.Intn(len(all))]
 		defect := 0
 		if g.chance(55) {
-			defect = 1 + g.r.Intn(10)
+			defect = 1 + g.r.Intn(11)
 		}
 		var eps []string
 		if g.chance(40) {
